@@ -52,22 +52,55 @@ Definition ring_wf (g : ring) : Prop :=
   length (rb_buf g) = rb_size g /\ rb_r g < rb_size g /\ rb_w g < rb_size g /\
   (rb_empty g = true -> rb_w g = rb_r g).
 
-(* whole histories of the read side: the operations the decoders use, their observable results, and the same
+(* ---- the write side: free, makeSpace, Write ---- *)
+Variable z : A.   (* what make() fills a new array with *)
+
+(* func (r *RingBuffer) free() int *)
+Definition ring_free (g : ring) : nat :=
+  if Nat.eqb (rb_w g) (rb_r g) then (if rb_empty g then rb_size g else 0)
+  else if Nat.ltb (rb_w g) (rb_r g) then rb_r g - rb_w g
+  else rb_size g - rb_w g + rb_r g.
+
+(* copy(l[at:], d) with at + len d <= len l *)
+Definition splice (l : list A) (at_ : nat) (d : list A) : list A := firstn at_ l ++ d ++ skipn (at_ + length d) l.
+
+(* func (r *RingBuffer) makeSpace(len int): a new array of size+len cells, the content read into its front
+   (Read(newBuf) delivers the content in order, head part then tail part), r = 0, w = old length *)
+Definition ring_make_space (g : ring) (k : nat) : ring :=
+  let c := ring_content g in
+  mkRing (c ++ repeat z (rb_size g + k - length c)) (rb_size g + k) 0 (ring_length g) (rb_empty g).
+
+(* func (r *RingBuffer) Write(p []byte) (n int, err error) *)
+Definition ring_write (g : ring) (p : list A) : ring :=
+  let n := length p in
+  if Nat.eqb n 0 then g else
+  let g := if Nat.ltb (ring_free g) n then ring_make_space g (n - ring_free g) else g in
+  let '(buf, w) :=
+    if Nat.leb (rb_r g) (rb_w g) then
+      if Nat.leb n (rb_size g - rb_w g) then (splice (rb_buf g) (rb_w g) p, rb_w g + n)
+      else (splice (splice (rb_buf g) (rb_w g) (firstn (rb_size g - rb_w g) p)) 0 (skipn (rb_size g - rb_w g) p),
+            rb_w g + n - rb_size g)
+    else (splice (rb_buf g) (rb_w g) p, rb_w g + n) in
+  mkRing buf (rb_size g) (rb_r g) (if Nat.eqb w (rb_size g) then 0 else w) false.
+
+(* whole histories: the operations the read loop and the decoders use, their observable results, and the same
    history on the content alone (the representation Model/Stream.v works with) *)
-Inductive rop := RLen | RPeek (n : nat) | RRetr (n : nat).
-Inductive robs := OLen (n : nat) | OPeek (l : list A) | ORetr.
+Inductive rop := RLen | RPeek (n : nat) | RRetr (n : nat) | RWrite (p : list A).
+Inductive robs := OLen (n : nat) | OPeek (l : list A) | ORetr | OWrite.
 
 Definition ring_step (g : ring) (o : rop) : ring * robs :=
   match o with
   | RLen => (g, OLen (ring_length g))
   | RPeek n => (g, OPeek (fst (ring_peek g n) ++ snd (ring_peek g n)))
   | RRetr n => (ring_retrieve g n, ORetr)
+  | RWrite p => (ring_write g p, OWrite)
   end.
 Definition content_step (c : list A) (o : rop) : list A * robs :=
   match o with
   | RLen => (c, OLen (length c))
   | RPeek n => (c, OPeek (firstn n c))
   | RRetr n => (skipn n c, ORetr)
+  | RWrite p => (c ++ p, OWrite)
   end.
 Fixpoint run_ops {S} (step : S -> rop -> S * robs) (s : S) (ops : list rop) : S * list robs :=
   match ops with
@@ -78,3 +111,4 @@ Fixpoint run_ops {S} (step : S -> rop -> S * robs) (s : S) (ops : list rop) : S 
 End Ring.
 Arguments ring : clear implicits.
 Arguments robs : clear implicits.
+Arguments rop : clear implicits.
